@@ -371,6 +371,60 @@ func ruleDecimalExponent(c *Ctx) {
 				c.check(guarded, "D-EXPONENT", funcName(f), "decimal.NewFromString", call.Pos(),
 					"parsed quantity passes an Exponent() bound before it enters the syntax tree",
 					"decimal.NewFromString result is stored into the syntax tree without a bound on its Exponent(): an amount like 1E9999999 makes the balance check materialise 10^9999999")
+				if guarded {
+					// the bound is two-sided: decimal arithmetic rescales to the smaller exponent, so 1E-30000000 is as
+					// expensive to add, compare and print as 1E30000000
+					upper, lower := false, false
+					for _, ref := range *call.Referrers() {
+						ex, ok := ref.(*ssa.Extract)
+						if !ok || ex.Index != 0 {
+							continue
+						}
+						for _, bb := range f.Blocks {
+							ifi, ok := lastInstr(bb).(*ssa.If)
+							if !ok {
+								continue
+							}
+							for w := range backSlice(ifi.Cond) {
+								bo, ok := w.(*ssa.BinOp)
+								if !ok {
+									continue
+								}
+								onX := condCallsOn(bo.X, ex, "Exponent", map[ssa.Value]bool{}) || sliceCallsOn(bo.X, ex, "Exponent")
+								onY := condCallsOn(bo.Y, ex, "Exponent", map[ssa.Value]bool{}) || sliceCallsOn(bo.Y, ex, "Exponent")
+								if !onX && !onY {
+									continue
+								}
+								op := bo.Op
+								if onY && !onX {
+									switch op {
+									case token.LSS:
+										op = token.GTR
+									case token.LEQ:
+										op = token.GEQ
+									case token.GTR:
+										op = token.LSS
+									case token.GEQ:
+										op = token.LEQ
+									}
+								}
+								// a transformed exponent (abs, negation) on the compared side bounds both directions
+								if _, direct := stripConv(map[bool]ssa.Value{true: bo.X, false: bo.Y}[onX]).(*ssa.Call); !direct {
+									upper, lower = true, true
+								}
+								switch op {
+								case token.GTR, token.GEQ:
+									upper = true
+								case token.LSS, token.LEQ:
+									lower = true
+								}
+							}
+						}
+					}
+					c.check(upper && lower, "D-EXPONENT", funcName(f), "the exponent bound is two-sided", call.Pos(),
+						"the parsed quantity's exponent is bounded from above and from below",
+						"the exponent of a parsed quantity is bounded on one side only: decimal arithmetic rescales both operands to the smaller exponent, so an amount like 1E-30000000 makes every sum, comparison and rendering materialise 10^30000000 just as 1E30000000 would")
+				}
 			}
 		}
 	}
@@ -897,4 +951,20 @@ func ruleBalanceReal(c *Ctx) {
 		}
 	}
 	c.census("B-REAL", "reads of a posting's amount below the balance check", n, 2)
+}
+
+// sliceCallsOn: the value's local backward slice contains a call of method `name` on v.
+func sliceCallsOn(x ssa.Value, v ssa.Value, name string) bool {
+	for w := range backSlice(x) {
+		if call, ok := w.(*ssa.Call); ok {
+			if cal := call.Common().StaticCallee(); cal != nil && cal.Name() == name {
+				for _, a := range call.Common().Args {
+					if a == v {
+						return true
+					}
+				}
+			}
+		}
+	}
+	return false
 }
